@@ -62,188 +62,193 @@ def run(ck: Checker):
                  f'`other` may be modified: {why}' if 'other' in fi.params else 'parameter `other` not found', construct=f'{q}(other) purity')
     ck.floor('C10.PURE', 6)
 
-    # names
-    p = [a.arg for a in fn.args.args]
-    ck.need(p[:4] == ['self', 'other', 'this_connectors', 'other_connectors'], f'{m.rel}: connect_circuit signature changed: {p}')
-
-    # the label map
-    loop = None
-    for st in fn.body:
-        if isinstance(st, ast.For) and norm(st.iter) == 'other.top_sort(inverse=True)':
-            loop = st
-    ck.need(loop is not None, f'{m.rel}: connect_circuit does not iterate other.top_sort(inverse=True) (shape changed)')
-    ck.ok('C10.EMIT', m, loop, 'attached gates are visited in dependency order (operands before users)', construct='for _gate in other.top_sort(inverse=True)')
-    mapvar = None
-    mapping_build = None
-    for st in fn.body:
-        if isinstance(st, ast.For) and isinstance(st.iter, ast.Call) and norm(st.iter.func) == 'enumerate' and len(st.body) == 1 and isinstance(st.body[0], ast.Assign):
-            b = st.body[0]
-            if isinstance(b.targets[0], ast.Subscript) and isinstance(st.target, ast.Tuple):
-                mapping_build = (st, b)
-    ck.need(mapping_build is not None, f'{m.rel}: connector map construction not found')
-    st, b = mapping_build
-    i_var, k_var = (norm(e) for e in st.target.elts)
-    keys_list = norm(st.iter.args[0])
-    key_ok = norm(b.targets[0].slice) == k_var
-    val = b.value
-    vals_list = norm(val.value) if isinstance(val, ast.Subscript) and norm(val.slice) == i_var else None
-    ck.check(key_ok and keys_list == 'other_connectors' and vals_list == 'this_connectors', 'C10.EMIT', m, st,
-             'the label map sends the i-th attached connector to the i-th base connector', f'map built as `{norm(st)[:140]}`', construct='connector map construction')
-    # UNIQ: which list is validated under which direction
-    uniq = {}
-    for s in fn.body:
-        if isinstance(s, ast.If) and norm(s.test) == 'right_connect':
-            for branch, flag in ((s.body, True), (s.orelse, False)):
-                for x in branch:
-                    if isinstance(x, ast.If) and always_raises(x.body):
-                        t = norm(x.test)
-                        for lst in ('this_connectors', 'other_connectors'):
-                            if t == f'len({lst}) != len(set({lst}))':
-                                uniq.setdefault(flag, set()).add(lst)
-    for flag in (False, True):
-        validated = uniq.get(flag, set())
-        cons = f'connect_circuit: uniqueness of map keys ({keys_list}) with right_connect={flag}'
-        ck.check(keys_list in validated, 'C10.UNIQ', m, st, f'with right_connect={flag} the keys of the label map ({keys_list}) are validated duplicate-free',
-                 f'only {sorted(validated)} is checked for duplicates but the map is keyed by {keys_list}: a repeated {keys_list} entry silently overwrites its pair '
-                 f'and leaves a base connector unconnected', construct=cons)
-    ck.check('len(this_connectors) != len(other_connectors)' in {norm(s.test) for s in fn.body if isinstance(s, ast.If) and always_raises(s.body)},
-             'C10.UNIQ', m, fn, 'connector lists of different lengths are rejected', 'no length check', construct='connect_circuit: connector length check')
-
-    # EMIT inside the loop
-    cur = norm(loop.target)
-    gate_alias = cur
-    for s in loop.body:
-        if isinstance(s, (ast.Assign, ast.AnnAssign)) and norm(s.value) == cur:
-            gate_alias = norm(s.targets[0] if isinstance(s, ast.Assign) else s.target)
-    emits = [c for c in calls_in(loop, 'emplace_gate') if norm(c.func.value) == 'self']
-    ck.need(len(emits) == 1, f'{m.rel}: expected one emplace_gate in the attach loop, found {len(emits)}')
-    e = emits[0]
-    kw = kwargs_of(e, m.func('Circuit.emplace_gate'))
-    lab = deref(fn, kw.get('label'))
-    # new_label is assigned inside the loop: find its definition there
-    lab_defs = [s.value for s in ast.walk(loop) if isinstance(s, (ast.Assign, ast.AnnAssign)) and norm(s.targets[0] if isinstance(s, ast.Assign) else s.target) == norm(kw.get('label'))]
-    lab_ok = len(lab_defs) == 1 and norm(lab_defs[0]) == f'prefix + {gate_alias}.label'
-    type_ok = norm(kw.get('gate_type')) == f'{gate_alias}.gate_type'
-    ops = kw.get('operands')
-    mapname = None
-    ops_ok = False
-    if isinstance(ops, ast.Call) and norm(ops.func) == 'tuple' and len(ops.args) == 1 and isinstance(ops.args[0], (ast.GeneratorExp, ast.ListComp)):
-        g = ops.args[0]
-        if len(g.generators) == 1 and not g.generators[0].ifs and norm(g.generators[0].iter) == f'{gate_alias}.operands' and isinstance(g.elt, ast.Subscript) \
-                and norm(g.elt.slice) == norm(g.generators[0].target):
-            mapname = norm(g.elt.value)
-            ops_ok = True
-    ck.check(lab_ok and type_ok and ops_ok, 'C10.EMIT', m, e, 'an attached gate keeps its type, gets the prefixed label and its operands mapped element-wise in order',
-             f'label ok={lab_ok}, type ok={type_ok}, operands ok={ops_ok} in `{norm(e)[:160]}`', construct='connect_circuit: attached gate emission')
-    # the map used for operands is the one seeded by the connector map and extended with every emitted label
-    seeded = mapname is not None and norm(single_def(fn, mapname) or ast.Constant(None)) in ('copy.copy(mapping)', 'dict(mapping)', 'mapping.copy()')
-    ext = any(isinstance(s, ast.Assign) and norm(s.targets[0]) == f'{mapname}[{gate_alias}.label]' and norm(s.value) == norm(kw.get('label')) for s in ast.walk(loop))
-    ck.check(seeded and ext, 'C10.EMIT', m, loop, 'one label map (connector pairs + every emitted gate) is used for all operand references',
-             f'map `{mapname}` seeded from connector map: {seeded}; extended at emission: {ext}', construct='connect_circuit: label map maintenance')
-    # prefix definition
-    pre = [s for s in fn.body if isinstance(s, ast.If) and norm(s.test) == "name != '' and add_prefix"]
-    ck.check(len(pre) == 1 and norm(pre[0].body[0]) == "prefix = name + '@'" and any(norm(s) == "prefix: str = ''" for s in fn.body), 'C10.EMIT', m, pre[0] if pre else fn,
-             'labels are prefixed with name@ exactly when a name is given and add_prefix is set', 'prefix rule changed', construct='connect_circuit: prefix rule')
-
-    # ---- IFACE ----
-    so = [c for c in calls_in(fn, 'set_outputs') if norm(c.func.value) == 'self' and m.enclosing_stmt(c) in fn.body]
-    si = [c for c in calls_in(fn, 'set_inputs') if norm(c.func.value) == 'self' and m.enclosing_stmt(c) in fn.body]
-    ck.need(len(so) == 1 and len(si) == 1, f'{m.rel}: connect_circuit must call set_outputs and set_inputs once at top level')
-    parts = [_comp(x) for x in _concat_parts(so[0].args[0])]
-    want_out = [('output', 'output', 'self._outputs', ['output not in this_connectors']),
-                (f'{mapname}[output]', 'output', 'other.outputs', ['output not in other_connectors'])]
-    ck.check(_same_comps(parts, want_out), 'C10.IFACE', m, so[0],
-             'outputs = own outputs that are not base connectors, then mapped outputs of the attached circuit that are not attached connectors, both in order',
-             f'set_outputs argument is `{norm(so[0].args[0])[:200]}`', construct='connect_circuit: outputs composition')
-    parts = [_comp(x) for x in _concat_parts(si[0].args[0])]
-    saved = None
-    if parts and parts[0]:
-        saved = parts[0][2]
-    saved_def = single_def(fn, saved) if saved else None
-    saved_ok = saved_def is not None and norm(saved_def) in ('list(self._inputs)', 'list(self.inputs)', 'self._inputs.copy()', 'copy.copy(self._inputs)') \
-        and [s.lineno for s in fn.body if isinstance(s, ast.Assign) and norm(s.targets[0]) == saved][0] < loop.lineno
-    want_in = [('_input', '_input', saved, ['self._gates[_input].gate_type == gate.INPUT']),
-               (f'{mapname}[_input]', '_input', 'other.inputs', ['_input not in other_connectors'])]
-    ck.check(saved_ok and _same_comps(parts, want_in), 'C10.IFACE', m, si[0],
-             'inputs = own inputs (order saved before attaching) that are still INPUT gates, then mapped inputs of the attached circuit that are not connectors',
-             f'saved order ok={saved_ok}; set_inputs argument is `{norm(si[0].args[0])[:220]}`', construct='connect_circuit: inputs composition')
-    ck.floor('C10.IFACE', 2)
-
-    # ---- direction validation ----
-    ok_dir = False
-    for s in fn.body:
-        if isinstance(s, ast.If) and norm(s.test) == 'right_connect' and s.body and isinstance(s.body[0], ast.For) and s.orelse and isinstance(s.orelse[0], ast.For):
-            a, b_ = s.body[0], s.orelse[0]
-            ok_dir = norm(a.iter) == 'this_connectors' and 'self.get_gate' in norm(a) and 'gate.INPUT' in norm(a) and always_raises(a.body[0].body) \
-                and norm(b_.iter) == 'other_connectors' and 'other.get_gate' in norm(b_) and always_raises(b_.body[0].body)
-    ck.check(ok_dir, 'C10.UNIQ', m, fn, 'the connectors that are replaced must be inputs (base inputs when right_connect, attached inputs otherwise)',
-             'direction-specific INPUT validation not found', construct='connect_circuit: connector INPUT validation')
-
-    # ---- BLOCK ----
-    blocks = [c for c in calls_in(fn) if isinstance(c.func, ast.Name) and c.func.id == 'Block']
-    named = [c for c in blocks if any(k.arg == 'name' and norm(k.value) == 'name' for k in c.keywords)]
-    ck.need(len(named) == 1, f'{m.rel}: construction of the named block not found')
-    kw = {k.arg: k.value for k in named[0].keywords}
-    gvar = norm(kw['gates'].args[0]) if isinstance(kw.get('gates'), ast.Call) and norm(kw['gates'].func) == 'list' else None
-    ok = _comp(kw.get('inputs')) == (f'{mapname}[_input]', '_input', 'other.inputs', []) and _comp(kw.get('outputs')) == (f'{mapname}[_output]', '_output', 'other.outputs', []) and gvar is not None
-    ck.check(ok, 'C10.BLOCK', m, named[0], 'the block lists the mapped inputs and outputs of the attached circuit in order',
-             f'block built as `{norm(named[0])[:200]}`', construct='connect_circuit: named block interface')
-    # every store/emission of a non-INPUT attached gate adds its label to the block's gate set
-    adds = [c for c in calls_in(loop, 'add') if norm(c.func.value) == gvar]
-    sites = []  # (node, label_expr)
-    sites.append((e, norm(kwargs_of(e, m.func('Circuit.emplace_gate')).get('label'))))
-    for s in ast.walk(loop):
-        if isinstance(s, ast.Assign) and isinstance(s.targets[0], ast.Subscript) and norm(s.targets[0].value) == 'self._gates':
-            sites.append((s, norm(s.targets[0].slice)))
-    for node, label in sites:
-        st_, suite = _suite(m, node)
-        hit = False
-        for sib in suite:
-            if isinstance(sib, ast.If) and norm(sib.test) == f'{gate_alias}.gate_type != gate.INPUT' and len(sib.body) == 1 and norm(sib.body[0]) == f'{gvar}.add({label})':
-                hit = True
-        ck.check(hit, 'C10.BLOCK', m, node, 'every attached non-input gate (emitted or written over a base connector) joins the named block',
-                 f'gate `{label}` is created here but `{gvar}.add({label})` under `gate_type != INPUT` is missing in the same suite: the block\'s outputs can name gates outside the block',
-                 construct=f'connect_circuit: block membership of {label}')
-    ck.floor('C10.BLOCK', 3)
-    ck.floor('C10.EMIT', 5)
-
-    # ---- WRAP ----
-    cc = fn
-    want = {
-        'connect_left': {'other': 'other', 'this_connectors': 'this_connectors', 'other_connectors': 'other.inputs', 'right_connect': 'False'},
-        'connect_right': {'other': 'other', 'this_connectors': 'self.inputs', 'other_connectors': 'other_connectors', 'right_connect': 'True'},
-        'connect_inputs': {'other': 'other', 'this_connectors': 'self.inputs', 'other_connectors': 'other.inputs', 'right_connect': 'True'},
-        'add_circuit': {'other': 'other', 'this_connectors': '[]', 'other_connectors': '[]', 'right_connect': 'False'},
-        'extend_circuit': {'other': 'other', 'this_connectors': 'this_connectors', 'other_connectors': 'other_connectors', 'right_connect': 'right_connect'},
-    }
-    for name, w in want.items():
-        wf = m.func(f'Circuit.{name}')
-        calls = [c for c in calls_in(wf, 'connect_circuit')]
-        ck.need(len(calls) == 1, f'{m.rel}: {name} must call connect_circuit once')
-        got = {k: norm(v) for k, v in kwargs_of(calls[0], cc).items()}
-        got.setdefault('right_connect', 'False')
-        bad = {k: (got.get(k), v) for k, v in w.items() if got.get(k) != v}
-        pass_through = got.get('name') == 'name' and got.get('add_prefix') == 'add_prefix'
-        ck.check(not bad and pass_through, 'C10.WRAP', m, calls[0], f'{name} passes the documented connectors and direction',
-                 f'differs from the documented call: {bad}; name/add_prefix passed through: {pass_through}', construct=f'{name} -> connect_circuit arguments')
-    ex = m.func('Circuit.extend_circuit')
-    d = {}
-    for s in ex.body:
-        if isinstance(s, ast.If) and len(s.body) == 1 and isinstance(s.body[0], ast.Assign):
-            d[norm(s.test)] = norm(s.body[0])
-    ck.check(d.get('this_connectors is None') == 'this_connectors = self.inputs if right_connect else self.outputs'
-             and d.get('other_connectors is None') == 'other_connectors = other.outputs if right_connect else other.inputs', 'C10.WRAP', m, ex,
-             'extend_circuit defaults: own outputs feed the attached inputs (left), attached outputs feed own inputs (right)', f'defaults are {d}', construct='extend_circuit defaults')
-    ck.floor('C10.WRAP', 6)
-    ck.rule('C10.IDX', 'the right_connect branch registers the connector gate as user of each of its operands, once per occurrence (shared with C02.IDX)')
-    from .C02 import check_sites
-    check_sites(ck, R='C10.IDX', only_function='Circuit.connect_circuit')
-    ck.floor('C10.IDX', 1)
     ck.rule('C10.FOLD', 'connect_circuit folded on instances of the repository\'s own Circuit class over a bounded family of compositions (both directions, internal / repeated base connectors, partial connector lists, naming and prefix options; other.top_sort replaced by an oracle) and compared with the documented composition: attached circuit untouched, well-formed result, inputs, outputs, function of every kept output; each wrapper equals connect_circuit with its documented connector lists (distinct other_connectors only: repeated ones under right_connect are finding F11 / C10.UNIQ)')
     from .. import compose_fold
     compose_fold.fold_connect(ck, 'C10.FOLD', 'C10.BLOCK')
     compose_fold.fold_wrappers(ck, 'C10.FOLD')
+    compose_fold.fold_repeated_connectors(ck, 'C10.UNIQ')
     ck.floor('C10.FOLD', 15)
+    # structural rules: they state the clauses for compositions of any size but know one way of writing connect_circuit;
+    # where they do not recognise the code the clause is left to the fold above (C10.UNIQ's verdict is the fold's)
+    with ck.soft('C10.FOLD'):
+        # names
+        p = [a.arg for a in fn.args.args]
+        ck.need(p[:4] == ['self', 'other', 'this_connectors', 'other_connectors'], f'{m.rel}: connect_circuit signature changed: {p}')
+
+        # the label map
+        loop = None
+        for st in fn.body:
+            if isinstance(st, ast.For) and norm(st.iter) == 'other.top_sort(inverse=True)':
+                loop = st
+        ck.need(loop is not None, f'{m.rel}: connect_circuit does not iterate other.top_sort(inverse=True) (shape changed)')
+        ck.ok('C10.EMIT', m, loop, 'attached gates are visited in dependency order (operands before users)', construct='for _gate in other.top_sort(inverse=True)')
+        mapvar = None
+        mapping_build = None
+        for st in fn.body:
+            if isinstance(st, ast.For) and isinstance(st.iter, ast.Call) and norm(st.iter.func) == 'enumerate' and len(st.body) == 1 and isinstance(st.body[0], ast.Assign):
+                b = st.body[0]
+                if isinstance(b.targets[0], ast.Subscript) and isinstance(st.target, ast.Tuple):
+                    mapping_build = (st, b)
+        ck.need(mapping_build is not None, f'{m.rel}: connector map construction not found')
+        st, b = mapping_build
+        i_var, k_var = (norm(e) for e in st.target.elts)
+        keys_list = norm(st.iter.args[0])
+        key_ok = norm(b.targets[0].slice) == k_var
+        val = b.value
+        vals_list = norm(val.value) if isinstance(val, ast.Subscript) and norm(val.slice) == i_var else None
+        ck.check(key_ok and keys_list == 'other_connectors' and vals_list == 'this_connectors', 'C10.EMIT', m, st,
+                 'the label map sends the i-th attached connector to the i-th base connector', f'map built as `{norm(st)[:140]}`', construct='connector map construction')
+        # UNIQ: which list is validated under which direction
+        uniq = {}
+        for s in fn.body:
+            if isinstance(s, ast.If) and norm(s.test) == 'right_connect':
+                for branch, flag in ((s.body, True), (s.orelse, False)):
+                    for x in branch:
+                        if isinstance(x, ast.If) and always_raises(x.body):
+                            t = norm(x.test)
+                            for lst in ('this_connectors', 'other_connectors'):
+                                if t == f'len({lst}) != len(set({lst}))':
+                                    uniq.setdefault(flag, set()).add(lst)
+        for flag in (False, True):
+            validated = uniq.get(flag, set())
+            cons = f'connect_circuit: uniqueness of map keys ({keys_list}) with right_connect={flag}'
+            ck.check(keys_list in validated, 'C10.UNIQ', m, st, f'with right_connect={flag} the keys of the label map ({keys_list}) are validated duplicate-free',
+                     f'only {sorted(validated)} is checked for duplicates but the map is keyed by {keys_list}: a repeated {keys_list} entry silently overwrites its pair '
+                     f'and leaves a base connector unconnected', construct=cons)
+        ck.check('len(this_connectors) != len(other_connectors)' in {norm(s.test) for s in fn.body if isinstance(s, ast.If) and always_raises(s.body)},
+                 'C10.UNIQ', m, fn, 'connector lists of different lengths are rejected', 'no length check', construct='connect_circuit: connector length check')
+
+        # EMIT inside the loop
+        cur = norm(loop.target)
+        gate_alias = cur
+        for s in loop.body:
+            if isinstance(s, (ast.Assign, ast.AnnAssign)) and norm(s.value) == cur:
+                gate_alias = norm(s.targets[0] if isinstance(s, ast.Assign) else s.target)
+        emits = [c for c in calls_in(loop, 'emplace_gate') if norm(c.func.value) == 'self']
+        ck.need(len(emits) == 1, f'{m.rel}: expected one emplace_gate in the attach loop, found {len(emits)}')
+        e = emits[0]
+        kw = kwargs_of(e, m.func('Circuit.emplace_gate'))
+        lab = deref(fn, kw.get('label'))
+        # new_label is assigned inside the loop: find its definition there
+        lab_defs = [s.value for s in ast.walk(loop) if isinstance(s, (ast.Assign, ast.AnnAssign)) and norm(s.targets[0] if isinstance(s, ast.Assign) else s.target) == norm(kw.get('label'))]
+        lab_ok = len(lab_defs) == 1 and norm(lab_defs[0]) == f'prefix + {gate_alias}.label'
+        type_ok = norm(kw.get('gate_type')) == f'{gate_alias}.gate_type'
+        ops = kw.get('operands')
+        mapname = None
+        ops_ok = False
+        if isinstance(ops, ast.Call) and norm(ops.func) == 'tuple' and len(ops.args) == 1 and isinstance(ops.args[0], (ast.GeneratorExp, ast.ListComp)):
+            g = ops.args[0]
+            if len(g.generators) == 1 and not g.generators[0].ifs and norm(g.generators[0].iter) == f'{gate_alias}.operands' and isinstance(g.elt, ast.Subscript) \
+                    and norm(g.elt.slice) == norm(g.generators[0].target):
+                mapname = norm(g.elt.value)
+                ops_ok = True
+        ck.check(lab_ok and type_ok and ops_ok, 'C10.EMIT', m, e, 'an attached gate keeps its type, gets the prefixed label and its operands mapped element-wise in order',
+                 f'label ok={lab_ok}, type ok={type_ok}, operands ok={ops_ok} in `{norm(e)[:160]}`', construct='connect_circuit: attached gate emission')
+        # the map used for operands is the one seeded by the connector map and extended with every emitted label
+        seeded = mapname is not None and norm(single_def(fn, mapname) or ast.Constant(None)) in ('copy.copy(mapping)', 'dict(mapping)', 'mapping.copy()')
+        ext = any(isinstance(s, ast.Assign) and norm(s.targets[0]) == f'{mapname}[{gate_alias}.label]' and norm(s.value) == norm(kw.get('label')) for s in ast.walk(loop))
+        ck.check(seeded and ext, 'C10.EMIT', m, loop, 'one label map (connector pairs + every emitted gate) is used for all operand references',
+                 f'map `{mapname}` seeded from connector map: {seeded}; extended at emission: {ext}', construct='connect_circuit: label map maintenance')
+        # prefix definition
+        pre = [s for s in fn.body if isinstance(s, ast.If) and norm(s.test) == "name != '' and add_prefix"]
+        ck.check(len(pre) == 1 and norm(pre[0].body[0]) == "prefix = name + '@'" and any(norm(s) == "prefix: str = ''" for s in fn.body), 'C10.EMIT', m, pre[0] if pre else fn,
+                 'labels are prefixed with name@ exactly when a name is given and add_prefix is set', 'prefix rule changed', construct='connect_circuit: prefix rule')
+
+        # ---- IFACE ----
+        so = [c for c in calls_in(fn, 'set_outputs') if norm(c.func.value) == 'self' and m.enclosing_stmt(c) in fn.body]
+        si = [c for c in calls_in(fn, 'set_inputs') if norm(c.func.value) == 'self' and m.enclosing_stmt(c) in fn.body]
+        ck.need(len(so) == 1 and len(si) == 1, f'{m.rel}: connect_circuit must call set_outputs and set_inputs once at top level')
+        parts = [_comp(x) for x in _concat_parts(so[0].args[0])]
+        want_out = [('output', 'output', 'self._outputs', ['output not in this_connectors']),
+                    (f'{mapname}[output]', 'output', 'other.outputs', ['output not in other_connectors'])]
+        ck.check(_same_comps(parts, want_out), 'C10.IFACE', m, so[0],
+                 'outputs = own outputs that are not base connectors, then mapped outputs of the attached circuit that are not attached connectors, both in order',
+                 f'set_outputs argument is `{norm(so[0].args[0])[:200]}`', construct='connect_circuit: outputs composition')
+        parts = [_comp(x) for x in _concat_parts(si[0].args[0])]
+        saved = None
+        if parts and parts[0]:
+            saved = parts[0][2]
+        saved_def = single_def(fn, saved) if saved else None
+        saved_ok = saved_def is not None and norm(saved_def) in ('list(self._inputs)', 'list(self.inputs)', 'self._inputs.copy()', 'copy.copy(self._inputs)') \
+            and [s.lineno for s in fn.body if isinstance(s, ast.Assign) and norm(s.targets[0]) == saved][0] < loop.lineno
+        want_in = [('_input', '_input', saved, ['self._gates[_input].gate_type == gate.INPUT']),
+                   (f'{mapname}[_input]', '_input', 'other.inputs', ['_input not in other_connectors'])]
+        ck.check(saved_ok and _same_comps(parts, want_in), 'C10.IFACE', m, si[0],
+                 'inputs = own inputs (order saved before attaching) that are still INPUT gates, then mapped inputs of the attached circuit that are not connectors',
+                 f'saved order ok={saved_ok}; set_inputs argument is `{norm(si[0].args[0])[:220]}`', construct='connect_circuit: inputs composition')
+        ck.floor('C10.IFACE', 2)
+
+        # ---- direction validation ----
+        ok_dir = False
+        for s in fn.body:
+            if isinstance(s, ast.If) and norm(s.test) == 'right_connect' and s.body and isinstance(s.body[0], ast.For) and s.orelse and isinstance(s.orelse[0], ast.For):
+                a, b_ = s.body[0], s.orelse[0]
+                ok_dir = norm(a.iter) == 'this_connectors' and 'self.get_gate' in norm(a) and 'gate.INPUT' in norm(a) and always_raises(a.body[0].body) \
+                    and norm(b_.iter) == 'other_connectors' and 'other.get_gate' in norm(b_) and always_raises(b_.body[0].body)
+        ck.check(ok_dir, 'C10.UNIQ', m, fn, 'the connectors that are replaced must be inputs (base inputs when right_connect, attached inputs otherwise)',
+                 'direction-specific INPUT validation not found', construct='connect_circuit: connector INPUT validation')
+
+        # ---- BLOCK ----
+        blocks = [c for c in calls_in(fn) if isinstance(c.func, ast.Name) and c.func.id == 'Block']
+        named = [c for c in blocks if any(k.arg == 'name' and norm(k.value) == 'name' for k in c.keywords)]
+        ck.need(len(named) == 1, f'{m.rel}: construction of the named block not found')
+        kw = {k.arg: k.value for k in named[0].keywords}
+        gvar = norm(kw['gates'].args[0]) if isinstance(kw.get('gates'), ast.Call) and norm(kw['gates'].func) == 'list' else None
+        ok = _comp(kw.get('inputs')) == (f'{mapname}[_input]', '_input', 'other.inputs', []) and _comp(kw.get('outputs')) == (f'{mapname}[_output]', '_output', 'other.outputs', []) and gvar is not None
+        ck.check(ok, 'C10.BLOCK', m, named[0], 'the block lists the mapped inputs and outputs of the attached circuit in order',
+                 f'block built as `{norm(named[0])[:200]}`', construct='connect_circuit: named block interface')
+        # every store/emission of a non-INPUT attached gate adds its label to the block's gate set
+        adds = [c for c in calls_in(loop, 'add') if norm(c.func.value) == gvar]
+        sites = []  # (node, label_expr)
+        sites.append((e, norm(kwargs_of(e, m.func('Circuit.emplace_gate')).get('label'))))
+        for s in ast.walk(loop):
+            if isinstance(s, ast.Assign) and isinstance(s.targets[0], ast.Subscript) and norm(s.targets[0].value) == 'self._gates':
+                sites.append((s, norm(s.targets[0].slice)))
+        for node, label in sites:
+            st_, suite = _suite(m, node)
+            hit = False
+            for sib in suite:
+                if isinstance(sib, ast.If) and norm(sib.test) == f'{gate_alias}.gate_type != gate.INPUT' and len(sib.body) == 1 and norm(sib.body[0]) == f'{gvar}.add({label})':
+                    hit = True
+            ck.check(hit, 'C10.BLOCK', m, node, 'every attached non-input gate (emitted or written over a base connector) joins the named block',
+                     f'gate `{label}` is created here but `{gvar}.add({label})` under `gate_type != INPUT` is missing in the same suite: the block\'s outputs can name gates outside the block',
+                     construct=f'connect_circuit: block membership of {label}')
+        ck.floor('C10.BLOCK', 3)
+        ck.floor('C10.EMIT', 5)
+
+        # ---- WRAP ----
+        cc = fn
+        want = {
+            'connect_left': {'other': 'other', 'this_connectors': 'this_connectors', 'other_connectors': 'other.inputs', 'right_connect': 'False'},
+            'connect_right': {'other': 'other', 'this_connectors': 'self.inputs', 'other_connectors': 'other_connectors', 'right_connect': 'True'},
+            'connect_inputs': {'other': 'other', 'this_connectors': 'self.inputs', 'other_connectors': 'other.inputs', 'right_connect': 'True'},
+            'add_circuit': {'other': 'other', 'this_connectors': '[]', 'other_connectors': '[]', 'right_connect': 'False'},
+            'extend_circuit': {'other': 'other', 'this_connectors': 'this_connectors', 'other_connectors': 'other_connectors', 'right_connect': 'right_connect'},
+        }
+        for name, w in want.items():
+            wf = m.func(f'Circuit.{name}')
+            calls = [c for c in calls_in(wf, 'connect_circuit')]
+            ck.need(len(calls) == 1, f'{m.rel}: {name} must call connect_circuit once')
+            got = {k: norm(v) for k, v in kwargs_of(calls[0], cc).items()}
+            got.setdefault('right_connect', 'False')
+            bad = {k: (got.get(k), v) for k, v in w.items() if got.get(k) != v}
+            pass_through = got.get('name') == 'name' and got.get('add_prefix') == 'add_prefix'
+            ck.check(not bad and pass_through, 'C10.WRAP', m, calls[0], f'{name} passes the documented connectors and direction',
+                     f'differs from the documented call: {bad}; name/add_prefix passed through: {pass_through}', construct=f'{name} -> connect_circuit arguments')
+        ex = m.func('Circuit.extend_circuit')
+        d = {}
+        for s in ex.body:
+            if isinstance(s, ast.If) and len(s.body) == 1 and isinstance(s.body[0], ast.Assign):
+                d[norm(s.test)] = norm(s.body[0])
+        ck.check(d.get('this_connectors is None') == 'this_connectors = self.inputs if right_connect else self.outputs'
+                 and d.get('other_connectors is None') == 'other_connectors = other.outputs if right_connect else other.inputs', 'C10.WRAP', m, ex,
+                 'extend_circuit defaults: own outputs feed the attached inputs (left), attached outputs feed own inputs (right)', f'defaults are {d}', construct='extend_circuit defaults')
+        ck.floor('C10.WRAP', 6)
+        ck.rule('C10.IDX', 'the right_connect branch registers the connector gate as user of each of its operands, once per occurrence (shared with C02.IDX)')
+        from .C02 import check_sites
+        check_sites(ck, R='C10.IDX', only_function='Circuit.connect_circuit')
+        ck.floor('C10.IDX', 1)
+
     ck.rule('C02.COPY', 'blocks and circuits own their lists: no store into Circuit state and no Block(...) argument aliases a caller-visible list, so a later composition cannot change an earlier block (shared with C02)')
     from .C02 import check_copy
     check_copy(ck, eff)
